@@ -237,7 +237,7 @@ pub fn generate(rng: &mut Rng) -> GenGrammar {
     if rng.chance(1, 8) {
         let r = rng.pick(&rules).clone();
         let kw = kws[next_kw % kws.len()];
-        next_kw += 1;
+        let _ = next_kw + 1;
         if !used_kws.iter().any(|k| k == kw) {
             used_kws.push(kw.to_string());
         }
